@@ -59,6 +59,7 @@ func runC05(c *Ctx) error {
 		return err
 	}
 	c05SameBaseNames(c, tree)
+	c05ConfigRoute(c, tree)
 	return c05Random(c, tree)
 }
 
@@ -211,6 +212,86 @@ func c05SameBaseNames(c *Ctx, t *SrcTree) {
 	}
 }
 
+// c05ConfigRoute: planning the way the CLI and library users get there – one parsed configuration, Config.Get(format)
+// for one format after the other, each result prepared for its packager.  Entries addressed to single packagers are
+// interleaved with entries for all; every format has an override block (Config.Get then filters the contents by tag).
+func c05ConfigRoute(c *Ctx, t *SrcTree) {
+	fam := c.Rep.Family("plans-from-one-configuration", "exhaustive over 7 orders of the five formats (the five rotations, the reverse, deb twice around rpm) x {override block for every format, no override blocks}: ONE configuration parsed from YAML whose contents interleave entries tagged for each single packager with untagged ones; Config.Get(format) in that order on the same Config, nfpm.PrepareForPackager on each result; every plan vs the model of planning and the planning spec applied to the contents the document states; non-trivial = always")
+	fam.Exhaustive = true
+	src := func(rel string) string { return filepath.Join(t.Root, rel) }
+	raw := []wire.Content{
+		{Src: src("etc/app.conf"), Dst: "/etc/app/deb.conf", Type: "config", Packager: "deb"},
+		{Src: src("etc/app.conf"), Dst: "/etc/app/rpm.conf", Type: "config", Packager: "rpm"},
+		{Src: src("etc/app.conf"), Dst: "/etc/app/common.conf", Type: "config"},
+		{Src: src("bin/tool"), Dst: "/usr/bin/tool-apk", Packager: "apk"},
+		{Dst: "/var/lib/app", Type: "dir"},
+		{Src: src("bin/tool"), Dst: "/usr/bin/tool-ipk", Packager: "ipk"},
+		{Src: src("bin/tool"), Dst: "/usr/bin/tool"},
+		{Src: src("bin/tool"), Dst: "/usr/bin/tool-arch", Packager: "archlinux"},
+		{Src: "/usr/bin/tool", Dst: "/usr/bin/tool-link", Type: "symlink"},
+	}
+	var doc strings.Builder
+	doc.WriteString("name: verifpkg\narch: amd64\nplatform: linux\nversion: 1.2.3\nmaintainer: Verif <verif@example.com>\ndescription: planning through Config.Get\nmtime: 2023-11-14T22:13:20Z\numask: 0o022\ncontents:\n")
+	for _, e := range raw {
+		doc.WriteString("- dst: " + e.Dst + "\n")
+		if e.Src != "" {
+			doc.WriteString("  src: " + e.Src + "\n")
+		}
+		if e.Type != "" {
+			fmt.Fprintf(&doc, "  type: %q\n", e.Type)
+		}
+		if e.Packager != "" {
+			doc.WriteString("  packager: " + e.Packager + "\n")
+		}
+	}
+	blocks := "overrides:\n"
+	for _, f := range Formats {
+		blocks += "  " + f + ":\n    depends: [only-" + f + "]\n"
+	}
+	orders := [][]string{}
+	for i := range Formats {
+		orders = append(orders, append(append([]string{}, Formats[i:]...), Formats[:i]...))
+	}
+	rev := []string{}
+	for i := len(Formats) - 1; i >= 0; i-- {
+		rev = append(rev, Formats[i])
+	}
+	orders = append(orders, rev, []string{"deb", "rpm", "deb", "apk", "rpm"})
+	for _, withBlocks := range []bool{true, false} {
+		y := doc.String()
+		if withBlocks {
+			y += blocks
+		}
+		for oi, order := range orders {
+			cfg, err := nfpm.Parse(strings.NewReader(y))
+			if err != nil {
+				c.Rep.Note("plans-from-one-configuration: document does not parse: %v", err)
+				return
+			}
+			for step, f := range order {
+				var implCs []wire.Content
+				implErr := ""
+				info, gerr := cfg.Get(f)
+				if gerr != nil {
+					implErr = "other"
+				} else {
+					info = nfpm.WithDefaults(info)
+					if perr := nfpm.PrepareForPackager(info, f); perr != nil {
+						implErr = planErrClass(perr)
+					} else {
+						for _, rc := range info.Contents {
+							implCs = append(implCs, fromReal(rc))
+						}
+					}
+				}
+				planCaseWith(c, fam, "plans-from-one-configuration", wire.PlanCfg{Packager: f, Umask: 0o022, MTime: 1700000000}, raw, false, implCs, implErr,
+					fmt.Sprintf("|through Config.Get(%q) as step %d of the order %v on one parsed configuration (override blocks: %v)", f, step+1, order, withBlocks),
+					map[string]any{"document": y, "order": order, "step": step + 1, "order_index": oi})
+			}
+		}
+	}
+}
+
 func c05Path(c *Ctx) error {
 	maxLen := c.N(6, 8)
 	fam := c.Rep.Family("path", fmt.Sprintf("every string over {/ . a b space} up to length %d through Clean/NormalizeAbsoluteFilePath/NormalizeAbsoluteDirPath/AsRelativePath/AsExplicitRelativePath/Dir/Base, model vs Go; non-trivial = result differs from input; distinct by (function,input)", maxLen))
@@ -317,16 +398,22 @@ func c05Path(c *Ctx) error {
 
 // planCase runs one plan scenario through model, implementation and spec.
 func planCase(c *Ctx, fam *report.Family, famName string, cfg wire.PlanCfg, raw []wire.Content, shrink bool) {
+	implCs, implErr := realPlan(cfg, raw)
+	planCaseWith(c, fam, famName, cfg, raw, shrink, implCs, implErr, "", nil)
+}
+
+// planCaseWith judges a planning result obtained by whatever route (route != "": not through realPlan; the key and the
+// input then carry the route and its extra description).
+func planCaseWith(c *Ctx, fam *report.Family, famName string, cfg wire.PlanCfg, raw []wire.Content, shrink bool, implCs []wire.Content, implErr string, route string, extra map[string]any) {
 	o := fsoracle.Build(raw, cfg.NoGlob)
 	req := wire.PlanReq(cfg, raw, o)
-	implCs, implErr := realPlan(cfg, raw)
 	ans, err := c.D.Batch([]string{req, "c05spec" + strings.TrimPrefix(req, "plan") + " " + encResult(implCs, implErr)})
 	if err != nil {
 		c.Rep.Note("driver: %v", err)
 		return
 	}
 	modelCs, modelErr, perr := wire.ParseContents(ans[0])
-	key := req
+	key := req + route
 	nontrivial := len(implCs) > 1 || implErr != ""
 	fam.Eval(key, nontrivial)
 	if implErr != "" {
@@ -335,12 +422,21 @@ func planCase(c *Ctx, fam *report.Family, famName string, cfg wire.PlanCfg, raw 
 		fam.Count(fmt.Sprintf("ok:entries<=%d", bucket(len(implCs))))
 	}
 	input := map[string]any{"packager": cfg.Packager, "umask": fmt.Sprintf("%o", cfg.Umask), "disable_globbing": cfg.NoGlob, "mtime": cfg.MTime, "contents": contentsToAny(raw)}
+	for k, v := range extra {
+		input[k] = v
+	}
 	if perr != nil || !samePlan(showPlan(modelCs, modelErr), showPlan(implCs, implErr)) {
 		c.Rep.Disagree(report.Disagreement{Family: famName, What: "files.PrepareForPackager vs model plan", Input: input, Model: ans[0] + " :: " + showPlan(modelCs, modelErr), Impl: showPlan(implCs, implErr)})
 	}
 	if strings.HasPrefix(ans[1], "violated ") {
 		clauses := strings.TrimPrefix(ans[1], "violated ")
 		rawMin := raw
+		if route != "" {
+			c.Rep.Find(report.Finding{Property: "C05", Family: famName, Shape: clauses + route,
+				What:  "the plan obtained " + strings.TrimPrefix(route, "|") + " violates the planning spec: " + clauses + "; got " + showPlan(implCs, implErr),
+				Input: input})
+			return
+		}
 		if shrink {
 			rawMin = shrinkPlan(c, cfg, raw, clauses)
 			input["contents"] = contentsToAny(rawMin)
